@@ -1,11 +1,14 @@
 import Driver.Proto
 import Driver.Geom
 import Driver.EMap
+import Driver.MoveAtom
+import Driver.Chi2
+import Driver.Pbc
 /-
   gmdriver — reads request lines on stdin, writes one response line per request on stdout.
 -/
 
-def handlers : List Handler := [DGeom.handle, DEMap.handle]
+def handlers : List Handler := [DGeom.handle, DEMap.handle, DMove.handle, DChi2.handle, DPbc.handle]
 
 def dispatch (op : String) : Option (Rd String) :=
   handlers.findSome? (fun h => h op)
